@@ -226,6 +226,12 @@ def c04(ctx):
 
 def c05(ctx):
     kernel_sweeps(ctx, 1.0)
+    # the same kernels with several threads inside them at once (C intrinsics, clang -O1, no
+    # sanitizer): a kernel's result must not depend on what other threads are hashing meanwhile
+    import cbuild
+    core.cdrv_run(ctx, "kernels-under-threads/cmt-int-clang", "int", "clang", "api", scale=1.0 if ctx.thorough else 0.3, shards=8, exe=cbuild.build_cmt("clang"),
+                  gen_extra=["--first-big", "1"], exe_args=lambda i: [str([4, 16, 8][i % 3]), "12" if ctx.thorough else "4", str(ctx.seed * 100 + i)],
+                  adopt=lambda sig: sig.startswith("C18/c/") and "mismatch" in sig)
 
 
 def c06(ctx):
@@ -386,6 +392,10 @@ def c18(ctx):
     # start staggered by 0-3 us, every history begins with one large update
     core.cdrv_run(ctx, "c/cmt", "asm", "native", "api", scale=6.0 if t else 1.5, shards=16, exe=cmt, gen_extra=["--first-big", "1"],
                   exe_args=lambda i: [str(sizes[i % 4]), "400" if t else "60", str(ctx.seed * 100 + i)])
+    # the same with one history in eight opening with a single 1-20 MiB update (process-wide state
+    # that depends on input size must not disturb hashers that are in the middle of their own work)
+    core.cdrv_run(ctx, "c/cmt-very-big-first", "asm", "native", "api", scale=2.0 if t else 0.5, shards=16, exe=cmt, gen_extra=["--first-big", "2"],
+                  exe_args=lambda i: [str(sizes[1 + i % 3]), "200" if t else "40", str(ctx.seed * 100 + 50 + i)])
     def tsan_rust():
         for k in range(12 if t else 3):
             core.tsan_mon(ctx, "rust/tsan-proc%d" % k, ["c18", "--nthreads", str([4, 16, 8][k % 3]), "--proc", str(1000 + k), "--per-thread", "3"])
